@@ -424,6 +424,53 @@ func refPositions() []refPosition {
 			}
 			return exInfo(p.Examples["e"])
 		}},
+		// parameters and headers defined by "content": the media type's schema and examples
+		{"schema", "parameter.content.schema", func(root, ref gen.S) {
+			op := dig(root, "paths", "/op2", "post")
+			op["parameters"] = append(asArr(op["parameters"]), gen.S{"name": "pcs", "in": "query", "content": gen.S{"application/json": gen.S{"schema": ref}}})
+		}, func(d *openapi3.T) (string, string, bool, bool) {
+			op := opOf(d, "/op2")
+			if op == nil {
+				return "", "", false, false
+			}
+			p := op.Parameters.GetByInAndName("query", "pcs")
+			if p == nil || mtOf(p.Content, "application/json") == nil {
+				return "", "", false, false
+			}
+			return schemaInfo(mtOf(p.Content, "application/json").Schema)
+		}},
+		{"example", "parameter.content.examples.e", func(root, ref gen.S) {
+			op := dig(root, "paths", "/op2", "post")
+			op["parameters"] = append(asArr(op["parameters"]), gen.S{"name": "pce", "in": "query", "content": gen.S{"application/json": gen.S{"schema": gen.S{"type": "integer"}, "examples": gen.S{"e": ref}}}})
+		}, func(d *openapi3.T) (string, string, bool, bool) {
+			op := opOf(d, "/op2")
+			if op == nil {
+				return "", "", false, false
+			}
+			p := op.Parameters.GetByInAndName("query", "pce")
+			if p == nil || mtOf(p.Content, "application/json") == nil {
+				return "", "", false, false
+			}
+			return exInfo(mtOf(p.Content, "application/json").Examples["e"])
+		}},
+		{"schema", "header.content.schema", func(root, ref gen.S) {
+			dig(root, "paths", "/op2", "post", "responses", "200", "headers")["HCS"] = gen.S{"content": gen.S{"application/json": gen.S{"schema": ref}}}
+		}, func(d *openapi3.T) (string, string, bool, bool) {
+			r := respOf(d, "/op2", "200")
+			if r == nil || r.Headers["HCS"] == nil || r.Headers["HCS"].Value == nil || mtOf(r.Headers["HCS"].Value.Content, "application/json") == nil {
+				return "", "", false, false
+			}
+			return schemaInfo(mtOf(r.Headers["HCS"].Value.Content, "application/json").Schema)
+		}},
+		{"example", "header.content.examples.e", func(root, ref gen.S) {
+			dig(root, "paths", "/op2", "post", "responses", "200", "headers")["HCE"] = gen.S{"content": gen.S{"application/json": gen.S{"schema": gen.S{"type": "integer"}, "examples": gen.S{"e": ref}}}}
+		}, func(d *openapi3.T) (string, string, bool, bool) {
+			r := respOf(d, "/op2", "200")
+			if r == nil || r.Headers["HCE"] == nil || r.Headers["HCE"].Value == nil || mtOf(r.Headers["HCE"].Value.Content, "application/json") == nil {
+				return "", "", false, false
+			}
+			return exInfo(mtOf(r.Headers["HCE"].Value.Content, "application/json").Examples["e"])
+		}},
 		{"example", "header.examples.e", func(root, ref gen.S) {
 			dig(root, "paths", "/op2", "post", "responses", "200", "headers")["HE"] = gen.S{"schema": gen.S{"type": "integer"}, "examples": gen.S{"e": ref}}
 		}, func(d *openapi3.T) (string, string, bool, bool) {
